@@ -11,6 +11,7 @@ import (
 	"encoding/json"
 	"flag"
 	"fmt"
+	"github.com/PowerDNS/lightningstream/config"
 	"sort"
 	"strings"
 	"time"
@@ -195,7 +196,7 @@ func main() {
 	verifhook.SetNow(func(site string, t time.Time) time.Time { return time.Unix(0, int64(clock)) })
 	verifhook.SetSkip(func(string) bool { return true })
 	storedAlpha := []sv{{false, 0, false, ""}, {true, 20, false, "m"}, {true, 20, true, ""}, {true, 20, false, ""}, {true, 0, false, "m"}}
-	incomingKinds := []string{"absent", "same", "older-live", "older-del", "tie-loser"}
+	incomingKinds := []string{"absent", "same", "older-live", "older-del", "tie-loser", "stale-del"}
 	var incomingKinds2 []string // second key: each kind with and without a filler key in the DBI
 	for _, k := range incomingKinds {
 		incomingKinds2 = append(incomingKinds2, k, k+"/nofiller")
@@ -221,7 +222,9 @@ func main() {
 									continue // shadow entries are always stamped
 								}
 								bkt := world.NewBucket()
-								a := inst.New("a", bkt, inst.Opt{Native: native, Padding: padding})
+								// the tomb sweeper is enabled (retention 1 day): a marker past the retention for a key that is absent
+								// locally (kind stale-del) is "nothing newer" as well
+								a := inst.New("a", bkt, inst.Opt{Native: native, Padding: padding, Sweeper: &config.Sweeper{Enabled: true, RetentionDays: 1, Interval: time.Hour, FirstInterval: time.Hour, LockDuration: time.Second, ReleaseDuration: time.Second}})
 								// establish stored content
 								stored := map[string]sv{"ka": sa, "kb": sb}
 								a.AppTxn(func(txn *lmdb.Txn) error {
@@ -296,6 +299,14 @@ func main() {
 											}
 											dm.Append(snapshot.KV{Key: []byte(pair.k), TimestampNano: v.ts - 1, Flags: fl})
 										}
+									case "stale-del":
+										if !v.present {
+											fl := uint32(1)
+											if fv < 2 {
+												fl = 0
+											}
+											dm.Append(snapshot.KV{Key: []byte(pair.k), TimestampNano: clock - uint64(72*time.Hour), Flags: fl})
+										}
 									case "tie-loser":
 										// same timestamp, greater value loses against a stored live value
 										if v.present && !v.del && v.val != "" {
@@ -350,7 +361,7 @@ func main() {
 	verifhook.SetNow(nil)
 	pa.States = int64(len(classes))
 	pa.Distinct = int64(len(classes))
-	pa.Bound = "native/shadow x padding x format 1..3 x stored versions of two keys {absent, live m@20, deleted@20, live ''@20, live m@0} x incoming per key {absent, identical, older live, older deleted, same-timestamp tie loser} (quick: half of the stored pairs for formats 1,2); shadow mode format 3 also without any other key, so that the application DBI is empty when both keys are absent or deleted"
+	pa.Bound = "native/shadow x padding x format 1..3 x stored versions of two keys {absent, live m@20, deleted@20, live ''@20, live m@0} x incoming per key {absent, identical, older live, older deleted, same-timestamp tie loser, marker past the sweeper retention for an absent key (sweeper enabled)} (quick: half of the stored pairs for formats 1,2); shadow mode format 3 also without any other key, so that the application DBI is empty when both keys are absent or deleted"
 	pa.Samples = []any{"native=true padding=true fv=2 stored a={true 20 true } b={false 0 false } incoming a=same b=absent"}
 	r.AddPart(pa)
 
@@ -388,6 +399,12 @@ func main() {
 		}
 		xrun.Explore(r, name, xrun.Opts{Kind: "loop", Bound: ev.Pick(r, 2, 3), Budget: 30, Recycle: 4,
 			Param: loopworld.Cfg{Native: native, Remote2: true, NoopRemote: true, TwoRemotes: true, ForceInterval: true, MaxVisits: 1, AppOps: []string{"put-b", "del-a"}}})
+		if r.Expired() {
+			continue
+		}
+		// forced snapshots disabled: however much time passes, a quiet instance uploads nothing
+		xrun.Explore(r, name+"-forced-snapshots-disabled", xrun.Opts{Kind: "loop", Bound: ev.Pick(r, 2, 3), Budget: 30, Recycle: 4,
+			Param: loopworld.Cfg{Native: native, QuietPeriod: true, Remote2: true, MaxVisits: 1, AppOps: []string{"put-b"}}})
 	}
 	r.Finish()
 }
